@@ -113,6 +113,17 @@ def merge(results):
     return counters, distinct, samples, violations, inconclusive, extra
 
 
+def floors_for(mod, tier):
+    '''deciding counters a run must reach to be conclusive.  The thorough tier runs ~24x longer than the quick
+    one; its floors only guard against a vacuous run and are capped at 5x the quick floors so that a loaded
+    machine makes the run shorter on work, not inconclusive after hours'''
+    fl = dict(getattr(mod, 'FLOORS', {}).get(tier, {}))
+    if tier == 'thorough':
+        q = getattr(mod, 'FLOORS', {}).get('quick', {})
+        fl = {k: (min(v, 5 * q[k]) if k in q else v) for k, v in fl.items()}
+    return fl
+
+
 def mech_key(v):
     return v.get('mechanism') or ('unclassified/' + v.get('clause', '?'))
 
@@ -155,7 +166,7 @@ def main(argv=None):
         s['index'] = i
         s.setdefault('tier', tier)
         s.setdefault('seed', seed)
-    floors0 = getattr(mod, 'FLOORS', {}).get(tier, {})
+    floors0 = floors_for(mod, tier)
     for s in specs:
         # a shard's share of each floor (x2.5: some counters are produced by a subset of the shards)
         s.setdefault('min', {k: -(-int(v * 2.5) // len(specs)) for k, v in floors0.items()})
@@ -240,7 +251,7 @@ def main(argv=None):
     wall = time.time() - t0
 
     # evidence
-    floors = getattr(mod, 'FLOORS', {}).get(tier, {})
+    floors = floors_for(mod, tier)
     below = [
         f'{k}={counters.get(k, len(distinct.get(k, ())))}<{v}'
         for k, v in floors.items()
